@@ -65,6 +65,9 @@ class XInterp(Interp):
         s.trace_calls = None
         s.errno_obj = s.alloc('errno', 4, 'global'); s.store(s.errno_obj, 0)
         s.strpool = {}
+        s.generic = False      # generic-point mode: a symbolic equality test x == y takes the '!=' branch (recorded as an assumption)
+        s.generic_assumed = [] # the disequalities assumed that way
+        s.unexplored = []      # branch conditions without witness point and without z3 verdict (not explored; listed)
 
     # ---- type helpers
     def rt(s, t):
@@ -304,6 +307,106 @@ class XInterp(Interp):
             return Rat.const(f)
         return Interp.val(s, v, t, env)
 
+    # ---- feasibility of a branch: witness by evaluation at random rational points first (z3's nonlinear engine can run for minutes
+    #      on pivot conditions of a symbolic LU and does not honour its timeout there), z3 in a killable child process second
+    def _vars_of(s, e):
+        cache = s.__dict__.setdefault('_vars_cache', {})
+        k = e.get_id()
+        if k not in cache:
+            seen = set(); out = []; todo = [e]
+            while todo:
+                x = todo.pop()
+                i = x.get_id()
+                if i in seen: continue
+                seen.add(i)
+                if z3.is_const(x) and x.decl().kind() == z3.Z3_OP_UNINTERPRETED: out.append(x)
+                else: todo.extend(x.children())
+            cache[k] = (out, e)
+        return cache[k][0]
+
+    def _eval_at(s, e, pt):
+        vs = s._vars_of(e)
+        for v in vs:
+            if v.get_id() not in pt['val']:
+                pt['val'][v.get_id()] = (v, z3.RealVal(Fraction(pt['rnd'].randint(-40, 40), pt['rnd'].choice((3, 5, 7, 8, 9, 11)))))
+        r = z3.simplify(z3.substitute(e, [pt['val'][v.get_id()] for v in vs]))
+        if z3.is_true(r): return True
+        if z3.is_false(r): return False
+        return None
+
+    def _samples(s):
+        import random
+        sm = s.__dict__.get('_sample_pts')
+        if sm is None:
+            sm = s._sample_pts = [{'rnd': random.Random(9000 + i), 'val': {}, 'npath': 0, 'ndens': 0, 'alive': True} for i in range(192)]
+        for pt in sm:
+            while pt['alive'] and pt['npath'] < len(s.path):
+                if s._eval_at(s.path[pt['npath']], pt) is not True: pt['alive'] = False
+                pt['npath'] += 1
+            while pt['alive'] and pt['ndens'] < len(s.dens):
+                if s._eval_at(s.dens[pt['ndens']] != 0, pt) is not True: pt['alive'] = False
+                pt['ndens'] += 1
+        return [pt for pt in sm if pt['alive']]
+
+    def _feasible(s, c):
+        """'sat' / 'unsat' / 'unknown' of path & divisors-nonzero & c"""
+        memo = s.__dict__.setdefault('_feas_memo', {})
+        k = (c.get_id(), len(s.path), len(s.dens))
+        if k in memo: return memo[k]
+        res = None
+        alive = s._samples()
+        for pt in alive:
+            if s._eval_at(c, pt) is True: res = 'sat'; break
+        if res is None and not alive and s.__dict__.get('unwitnessed'):
+            res = 'unknown'      # the path itself has no witness point: do not spend z3 time on every later comparison
+        if res is None:
+            rfd, wfd = os.pipe()
+            pid = os.fork()
+            if pid == 0:
+                try:
+                    os.close(rfd)
+                    sol = z3.Solver(); sol.set('timeout', 4000)
+                    for d in s.dens: sol.add(d != 0)
+                    for p_ in s.path: sol.add(p_)
+                    sol.add(c)
+                    os.write(wfd, str(sol.check()).encode())
+                finally:
+                    os._exit(0)
+            os.close(wfd)
+            import select, signal as _sg
+            rl, _, _ = select.select([rfd], [], [], 6.0)
+            if rl: res = os.read(rfd, 16).decode() or 'unknown'
+            else:
+                res = 'unknown'
+                try: os.kill(pid, _sg.SIGKILL)
+                except OSError: pass
+            os.close(rfd); os.waitpid(pid, 0)
+        memo[k] = res
+        return res
+
+    @staticmethod
+    def _thin(e):
+        """e can only hold on a measure-zero set: an equality atom, or a conjunction containing one"""
+        if z3.is_eq(e) and e.arg(0).sort().kind() == z3.Z3_REAL_SORT: return True
+        if z3.is_and(e): return any(XInterp._thin(ch) for ch in e.children())
+        if z3.is_or(e): return all(XInterp._thin(ch) for ch in e.children())
+        if z3.is_le(e) and z3.is_rational_value(e.arg(1)) and e.arg(1).as_fraction() == 0 and XInterp._sum_of_squares(e.arg(0)): return True
+        return False
+
+    @staticmethod
+    def _sum_of_squares(e):
+        """e is syntactically a sum of squares (so e <= 0 can only hold where every square vanishes)"""
+        def square(t):
+            if z3.is_mul(t):
+                ch = [c for c in t.children() if not (z3.is_rational_value(c) and c.as_fraction() > 0)]
+                if len(ch) == 2 and ch[0].get_id() == ch[1].get_id(): return True
+                if len(ch) == 1 and z3.is_app_of(ch[0], z3.Z3_OP_POWER): return True
+            if z3.is_app_of(t, z3.Z3_OP_POWER) and z3.is_rational_value(t.arg(1)) and t.arg(1).as_fraction() == 2: return True
+            if z3.is_div(t): return square(t.arg(0)) and square(t.arg(1))
+            return False
+        if z3.is_add(e): return all(square(t) or XInterp._sum_of_squares(t) for t in e.children())
+        return square(e)
+
     def decide(s, cond):
         c = z3.simplify(cond)
         if z3.is_true(c): return True
@@ -311,7 +414,35 @@ class XInterp(Interp):
         k = c.get_id()
         memo = s.__dict__.setdefault('_decided', {})
         if k in memo: return memo[k]
-        r = Interp.decide(s, c)
+        r = None
+        if s.generic:
+            nc = z3.simplify(z3.Not(c))
+            # generic point: a branch that needs free values to coincide is left out (recorded), unless it is forced
+            if s._thin(nc) and s._feasible(c) == 'sat': r = True
+            elif s._thin(c) and s._feasible(nc) == 'sat': r = False
+            if r is not None:
+                a = c if r else nc
+                s.path.append(a); s.generic_assumed.append(a)
+            else:
+                alive = s._samples()
+                vals = [s._eval_at(c, pt) for pt in alive]
+                nt, nf = vals.count(True), vals.count(False)
+                if len(alive) >= 16 and (nt == 0 or nf == 0) and None not in vals:
+                    # every witness point of the current path takes the same side: the other side is infeasible, a measure-zero set
+                    # written as an inequality (|x|^2 <= 0), or very unlikely.  z3 gets a short chance to say which.
+                    other = nc if nt else c
+                    fo = s._feasible(other)
+                    if fo == 'unsat': r = bool(nt)
+                    elif fo == 'unknown':
+                        r = bool(nt)
+                        a = c if r else nc
+                        s.path.append(a); s.unexplored.append(other)
+                elif not alive:
+                    fc, fn = s._feasible(c), s._feasible(nc)
+                    if fc == 'unsat' and fn != 'unsat': r = False
+                    elif fn == 'unsat' and fc != 'unsat': r = True
+        if r is None:
+            r = Interp.decide(s, c)
         memo[k] = r
         nk = z3.simplify(z3.Not(c)).get_id(); memo[nk] = not r
         return r
